@@ -115,6 +115,13 @@ def discharge(I, name_prefix, case, timeout_ms=20000, inputs=None, replay_fn=Non
     return res
 
 
+def definite_results(I, name_prefix, case):
+    """violations the interpreter itself established on this path before it had to stop (e.g. a store to an attribute of
+    a Substance argument): reported although the rest of the path is unsupported"""
+    return [{'name': name_prefix + d['name'], 'case': case, 'kind': 'property', 'verdict': 'refuted', 'independent': True,
+             'secs': 0.0, 'backend': 'interpreter (definite)', 'note': d['note']} for d in I.__dict__.get('definite', [])]
+
+
 def unsupported_result(name, case, note, kind='property'):
     return {'name': name, 'case': case, 'kind': kind, 'verdict': 'unsupported', 'note': note, 'secs': 0.0}
 
